@@ -9,7 +9,7 @@ from __future__ import annotations
 import ast
 from dataclasses import dataclass
 
-from sa.hdlcmodel import FRAME, MOD, READER, SELF, HdlcModel, loc
+from sa.hdlcmodel import FRAME, MOD, READER, SELF, HdlcModel, loc, FLAG
 from sa.paths import Engine, show_path, show_sv, strip_epoch
 
 
@@ -436,6 +436,7 @@ def skeleton(m: HdlcModel):
         H = None
         unknown = []
         cconds = []
+        early = False
         for g, pol, ln in p.guards:
             if g == ("cmp", "Is", frame0, ("c", None)):
                 H = pol
@@ -465,9 +466,12 @@ def skeleton(m: HdlcModel):
                 n_trim_ok += 1
                 continue
             if not any(e[0] == "loop" for e in p.effects):
-                res.append(Result("bad", "skeleton", "early-return", "read() returns without processing the buffered octets for a non-empty chunk: a frame this chunk completes is delivered only if "
-                                  "another call follows", fn.node.lineno, witness=f"chunk {[x for x in taken if x][0]!r} under [{cw}]"))
-                continue
+                early = True
+                flagless = any(g == ("cmp", "In", ("c", FLAG), PC) and not pol for g, pol in cconds)
+                if not (H is True and flagless):
+                    # (while hunting, a chunk without a flag octet would be skipped octet by octet anyway: returning at once delivers the same frames)
+                    res.append(Result("bad", "skeleton", "early-return", "read() returns without processing the buffered octets for a non-empty chunk: a frame this chunk completes is delivered only if "
+                                      "another call follows", fn.node.lineno, witness=f"chunk {[x for x in taken if x][0]!r} under [{cw}]"))
         seen_loop = False
         trimmed_after = False
         extended = False
@@ -491,11 +495,11 @@ def skeleton(m: HdlcModel):
                                           "(octets of a frame in progress are dropped when a call boundary falls there)", e[-1], witness="; ".join(f"{'' if pol else 'not '}{t}" for t, pol, _ in unknown) or "frame is not None"))
                     elif unknown:
                         res.append(Result("ok", "hunt-trim", "trim under extra condition", "hunt-mode trim happens only while hunting"))
-                    if seen_loop:
+                    if seen_loop or early:  # (on an early return every trim made counts as the release of consumed input)
                         trimmed_after = True
                     continue
                 if bk == "trim-pos":
-                    if seen_loop:
+                    if seen_loop or early:  # (on an early return every trim made counts as the release of consumed input)
                         trimmed_after = True
                     continue
                 if bk == "unknown" and not seen_loop and H is True:
